@@ -288,7 +288,9 @@ InplaceCases == LET ps == SetToSeq(InplacePairs) IN
 Keep == IF "KEEP" \in DOMAIN IOEnv THEN atoi(IOEnv.KEEP) ELSE 1        \* keep one history out of KEEP (rotated by SEED)
 \* pseudo-random (not strided: a stride correlates with the enumeration order of the descriptor tuples and would systematically
 \* drop whole classes, e.g. every history in which the two flags differ)
-Mix(i) == (((i * 7919 + Seed * 104729 + 12345) % 1000003) * 31 + i) % 1000003
+\* (indices above 200000 are folded first: TLC's integers are 32-bit, and the thorough tier enumerates more than 2^31 / 7919 descriptors)
+Mix(i) == LET j == IF i > 200000 THEN (i % 200000) + 7 * (i \div 200000) ELSE i
+          IN (((j * 7919 + (Seed % 4000) * 104729 + 12345) % 1000003) * 31 + j) % 1000003
 Thinned(sq) == LET sel == SelectSeq([i \in 1..Len(sq) |-> i], LAMBDA i : Mix(i) % Keep = 0 /\ i % NShards = Shard) IN [k \in 1..Len(sel) |-> sq[sel[k]]]
 Cases == CASE Family = "deleg" -> LET ds == Thinned(SetToSeq(DelegDescs) \o SetToSeq(ChainDescs)) \o (IF Shard = 0 THEN SetToSeq(HvDescs) ELSE <<>>) IN [k \in 1..Len(ds) |-> BuildDeleg(ds[k])] \o (IF Shard = 0 THEN SetToSeq(AdjustedKeyHistories) ELSE <<>>)
            [] Family = "neg" -> Thinned(SetToSeq(NegCases(1)))
